@@ -248,6 +248,11 @@ fn one_foreign(ctx: &mut Ctx, i: u64) {
         ctx.count("layouts_with_empty_metadata");
     }
     ctx.count(&format!("offset_style.{}", o.offset_style));
+    if i % 5 == 3 {
+        // failed opens / parses of cut and damaged copies of this archive on the same thread right before
+        crate::checks::common::failing_calls_before(&mut rng, Some(&f.bytes));
+        ctx.count("opens_preceded_by_failed_calls");
+    }
     let meta = Some(&f.meta);
     let max_fetch = 400;
     // entry point rotates: from_bytes / from_reader / from_async_reader
